@@ -19,7 +19,7 @@ RULE = ("metamorphic pairs: a base input (msprime, 2-7 contemporaneous samples, 
         "options go to both copies (outside_standardize and cache_inside on/off, num_threads None/1(/2), numpy-typed "
         "values); re-timing includes exactly tied times; ~40% of the base inputs carry vlib.gen.exotic decorations "
         "(extra flag bits, ALL nodes renumbered, mutation-free sites, allele strings, populations, mutation times); "
-        "thorough adds 8 larger inputs (12-25 samples); results are compared through the permutation. A pair is non-trivial when "
+        "thorough adds 4 larger inputs (12-18 samples); results are compared through the permutation. A pair is non-trivial when "
         "the permutation is not the identity or the time order of the non-sample nodes changes; distinct by hash."
         "About half of the inputs carry 1-3 extra mutations that sit on NO edge (above the root of the local tree; valid tskit input); the references count only mutations on edges, computed from the tables.")
 ASSUME = ["tskit's table sort / tree-sequence validation (the transformed copy is rebuilt and sorted by tskit)",
@@ -47,11 +47,11 @@ def gen_pairs(ctx, n_multi, n_single):
     rng = ctx.rng
     pairs = []
     shapes = [s for k in range(2, 6) for s in D.tree_shapes(k)]
-    nbig = 8 if ctx.tier == "thorough" else 0
+    nbig = 4 if ctx.tier == "thorough" else 0
     for k in range(n_multi + n_single + nbig):
         unary = False
         if k >= n_multi + n_single:
-            d = D.sim_dict(rng, n=rng.randint(12, 25), big=True)
+            d = D.sim_dict(rng, n=rng.randint(12, 18), big=True)
             kind = "big"
         elif k < n_multi:
             d = D.sim_dict(rng, n=rng.randint(2, 7))
@@ -233,7 +233,7 @@ def order_changed(base, other, m):
 
 
 def run(ctx, model_ok=True):
-    pairs = gen_pairs(ctx, ctx.n(25, 200), ctx.n(10, 80))
+    pairs = gen_pairs(ctx, ctx.n(25, 150), ctx.n(10, 60))
     stats = {}
     for base, other, m, what in pairs:
         ident = all(k == v for k, v in m.items())
